@@ -38,6 +38,17 @@ type CliCase struct {
 	CliTLS  bool   `json:"cliTls"`
 	Script  []SSym `json:"script"`
 	End     string `json:"end"` // eof | silence
+	ChanBuf int    `json:"chanBuf,omitempty"` // the client channel's buffer size: 0 = 4 (the default of these scripts), -1 = none, n = n
+}
+
+func (c *CliCase) chanBuf() int {
+	switch {
+	case c.ChanBuf == 0:
+		return 4
+	case c.ChanBuf < 0:
+		return 0
+	}
+	return c.ChanBuf
 }
 
 type CliObs struct {
@@ -53,6 +64,7 @@ type CliObs struct {
 	Got         []GotEnv `json:"got"`    // envelopes the scripted server received
 	SentN       int      `json:"sentN"`  // script symbols actually sent
 	LastHS      int      `json:"lastHs"` // index of the symbol after which EstablishSession returned (-1: none)
+	EstAtEnd    bool     `json:"estAtEnd,omitempty"` // Established() once the whole script has been sent and taken (before the server hangs up)
 	CliClosed   bool     `json:"cliClosed"`
 	CloseHangs  bool     `json:"closeHangs,omitempty"` // ClientChannel.Close did not return within the release bound
 	Leftover    string   `json:"leftover,omitempty"`
@@ -151,7 +163,7 @@ func runClientScript(c *CliCase, streamItems *int) *CliObs {
 	}
 	cl, sv := Pipe(PipeOpts{Capture: true})
 	ct := lime.VerifNewTCPTransport(cl, tcpCfg, false)
-	cc := lime.NewClientChannel(ct, 4)
+	cc := lime.NewClientChannel(ct, c.chanBuf())
 	peer := NewRawPeer(sv)
 	ctx, cancel := context.WithTimeout(context.Background(), handshakeTimeout)
 	defer cancel()
@@ -239,6 +251,7 @@ func runClientScript(c *CliCase, streamItems *int) *CliObs {
 		obs.LastHS = obs.SentN - 1
 	}
 	obs.Live = !returned() || cc.Established()
+	obs.EstAtEnd = returned() && cc.Established()
 	switch c.End {
 	case "silence":
 		time.Sleep(handshakeTimeout + time.Second)
@@ -328,6 +341,34 @@ func judgeC08(c *CliCase, obs *CliObs, o *Outcome) {
 		}
 	}
 	_ = reported
+	// ... and stops reporting it when the server has had another last word since (the script went on after establishment)
+	if obs.SesState == "established" && obs.EstAtEnd {
+		for j := obs.SentN - 1; j > obs.LastHS && j < len(c.Script); j-- {
+			if c.Script[j].Kind != "session" {
+				continue
+			}
+			// (these scripts do not consume the client's inbound streams: data envelopes beyond the buffer size, per kind,
+			// hold the receiver up before it reaches the later word)
+			held := map[string]int{}
+			blocked := false
+			for k := obs.LastHS + 1; k < j; k++ {
+				if kd := c.Script[k].Kind; kd != "session" {
+					held[kd]++
+					if held[kd] > c.chanBuf() {
+						blocked = true
+					}
+				}
+			}
+			if blocked {
+				o.Class("later-word-behind-unconsumed-data")
+				break
+			}
+			if c.Script[j].State != "established" {
+				o.Fail("C08/established-after-later-"+c.Script[j].State, "the server's last word is a %s session (symbol %d, sent after establishment and taken), yet the channel still reports an established session (state %s)", c.Script[j].State, j, obs.State)
+			}
+			break
+		}
+	}
 	// (3) id echo, (4) credentials only on request
 	for gi, g := range obs.Got {
 		if gi == 0 {
@@ -459,6 +500,7 @@ func typicalProgression(alpha []SSym) []int {
 func classifyCli(c *CliCase, obs *CliObs, o *Outcome) {
 	o.Class("encSel=" + c.EncSel)
 	o.Class("auth=" + c.Auth)
+	o.Class(fmt.Sprintf("chanBuf=%d", c.chanBuf()))
 	o.Class(fmt.Sprintf("scriptlen=%d", len(c.Script)))
 	switch {
 	case obs.SesState != "":
@@ -497,6 +539,7 @@ func TestC08Enum(t *testing.T) {
 		{EncSel: "tls", CompSel: "none", Auth: "plain", CliTLS: true},
 		{EncSel: "none", CompSel: "none", Auth: "echo", CliTLS: false},
 		{EncSel: "tls", CompSel: "first", Auth: "key", CliTLS: false},
+		{EncSel: "none", CompSel: "none", Auth: "guest", CliTLS: false, ChanBuf: -1},
 	}
 	var rec1 func(base CliCase, prefix []SSym, mine bool)
 	rec1 = func(base CliCase, prefix []SSym, mine bool) {
@@ -548,6 +591,7 @@ func TestC08(t *testing.T) {
 			Auth:    rapid.SampledFrom([]string{"guest", "plain", "key", "external", "transport", "echo"}).Draw(rt, "auth"),
 			CliTLS:  rapid.Bool().Draw(rt, "cliTls"),
 			End:     rapid.SampledFrom([]string{"eof", "eof", "silence"}).Draw(rt, "end"),
+			ChanBuf: rapid.SampledFrom([]int{0, 0, -1, 1}).Draw(rt, "chanBuf"),
 		}
 		n := rapid.IntRange(1, 7).Draw(rt, "len")
 		for i := 0; i < n; i++ {
